@@ -50,6 +50,21 @@ DEFS = {
                         "the number of _keep_going evaluations and anything about timing is deliberately not constrained"],
         "components": RUNNER_COMPONENTS,
     },
+    "C06": {
+        "module": "worlds.c06", "level": "exploration",
+        "stages": {
+            "quick": [{"name": "accumulator schedules and merge trees", "n": 60000, "wall": 45, "opts": {"chunk": 250}}],
+            "thorough": [{"name": "accumulator schedules and merge trees", "n": 6000000, "wall": 800, "opts": {"chunk": 1000}}],
+        },
+        "rule": ("plan = a stream of 1-40 observations scheduled over up to 8 accumulators (contiguous chunks, updates interleaved with merges, arbitrary association "
+                 "order; non-adjacent merges for the commutative types), for each of the four result types, value accumulation on/off, exact-integer and float arithmetic; "
+                 "set level: merge_all_results/append_all_results histories incl. merging into an empty set; combine level: two grids with overlapping unpacked values. "
+                 "No fault kinds exist for this property (said in DESIGN.md). distinct = distinct event-log digests; non-trivial = at least one merge/append/combine"),
+        "assumptions": ["exact mode uses integers small enough that every partial float sum is exact, so equality is ==; float mode uses relative tolerance 1e-9",
+                        "merging an EMPTY misc result and merging sets that hold several results per name are outside the statement's quantifier and are not generated"],
+        "components": {"real": ["Result.create/update/merge and statistics", "SimulationResults add/append/merge_all/append_all", "combine_simulation_results, combine_simulation_parameters, get_pack_indexes"],
+                       "fake": ["the scheduler that decides which accumulator receives an observation and the merge tree"], "stub_or_not_run": []},
+    },
 }
 
 
